@@ -30,16 +30,19 @@
      m for extend: doers' = doers ++ new               [C06_extend_window, last clause]
    e2 in full is FALSE of the code (open finding D42: extending a DoDoer that has
    not yet had its pass in the current root cycle) — [C06_next_cycle_refuted].
-     m as a refinement to the list specification, for the effects of one
-       resumption, class NE0                           [C06_members_refine_partial]
-   NOT PROVED (checked by the correspondence and the call-log oracle of
-   harness/drivers/c06.py on every run): (m) when the entered doers themselves call
-   extend/remove in their first resumption (nested interleavings; there the code
-   computes the not-present arguments before, and appends after, the nested calls). *)
+     m as a refinement to the list specification, class NE0: for the effects of one
+       resumption [C06_members_refine_partial], for each of the eleven functions
+       [C06_members_functions_partial] and for whole runs [C06_members_run_partial];
+     m for ALL programs with call-time snapshots        [C06_members_run_snapshots]
+   NOT PROVED as one run-level statement (covered by the correspondence and the
+   call-log oracle of harness/drivers/c06.py): e2 across the partially executed stack
+   frames between an ExtRet and the next loop boundary (each frame's remainder is
+   covered by C06_sheltered_no_recur / C06_pass_shelter, which hold from any state). *)
 From Hio Require Import Base.Prelude Base.AMap Base.Time Model.Sched Proofs.SchedLife Proofs.SchedTop
   Proofs.SchedDeque Proofs.SchedDequeHold Proofs.SchedDequeAll Proofs.SchedDequeUniq Proofs.SchedDequeOrder
   Proofs.SchedDequeEffects Proofs.SchedDequeTop Proofs.SchedDequeTop2 Proofs.SchedDequeEpos Proofs.SchedDequeSortB
-  Proofs.SchedDequePass Proofs.SchedDequeMembers Proofs.SchedDequeRoot0 Proofs.SchedDequeShelter Proofs.SchedDequeShelter2.
+  Proofs.SchedDequePass Proofs.SchedDequeMembers Proofs.SchedDequeRoot0 Proofs.SchedDequeShelter Proofs.SchedDequeShelter2
+  Proofs.SchedDequeMembers2 Proofs.SchedDequeMembers3.
 
 (* one extend(): new := the not-present doers, deduplicated; they are entered
    (running their first resumption) with the tyme unchanged, every event of the
@@ -310,6 +313,42 @@ Example C06_members_example :
   doers (get_sched (fst (run_effects 1%Z 50 m_state 1%N m_es)) 0%N) = [2; 7; 5]%N /\
   doers (get_sched (fst (run_effects 1%Z 50 m_state 1%N m_es)) 2%N) = [3; 4; 7]%N.
 Proof. vm_compute. repeat split. Qed.
+
+(* (m) over whole runs, class NE0: ONE log of list-specification operations, every
+   entry an extend/remove effect of some script of the program, such that for EVERY
+   scheduler t the doers list at the end of the run is its initial list (the root's
+   doers / the DoDoer's kids) transformed by the entries on t, in log order: the
+   insertion-ordered added-and-not-removed list.  The same holds for each of the
+   eleven interpreter functions from any state ([mr_all]). *)
+Theorem C06_members_run_partial :
+  forall (T : Type) (TT : Time T) (cycles fuel : nat) (p : prog T),
+    NE0 (p_defs p) ->
+    exists log : list (id * mop), Forall (from_prog (p_defs p)) log /\
+      forall t, doers (get_sched (do_run cycles fuel p) t) = mrun (doers (get_sched (init_st p) t)) t log.
+Proof. intros T TT cycles fuel p N. exact (do_run_members cycles fuel p N). Qed.
+Print Assumptions C06_members_run_partial.
+
+Theorem C06_members_functions_partial :
+  forall (T : Type) (TT : Time T) (tk : T) (d : amap (fdef T)) (f : nat), mr_at tk d f.
+Proof. intros. apply mr_all. Qed.
+Print Assumptions C06_members_functions_partial.
+
+Example C06_members_run_example :
+  NE0b (p_defs m_prog) = true /\ doers (get_sched (do_run 10 100 m_prog) 0%N) = [1; 2; 5]%N.
+Proof. vm_compute. repeat split. Qed.
+
+(* (m) over whole runs for ALL programs: without NE0 the code's extend() computes the
+   not-present arguments from the list AT THE CALL and appends them after the enters;
+   log entries for extend carry that snapshot, and every snapshot is the value the
+   target's list had after some earlier prefix of the log ([SnapOK]; under NE0 the
+   current one, which is C06_members_run_partial) *)
+Theorem C06_members_run_snapshots :
+  forall (T : Type) (TT : Time T) (cycles fuel : nat) (p : prog T),
+    exists log : list (id * sop), Forall (from_prog3 (p_defs p)) log /\
+      (forall t, doers (get_sched (do_run cycles fuel p) t) = srun (doers (get_sched (init_st p) t)) t log) /\
+      SnapOK (fun t => doers (get_sched (init_st p) t)) log.
+Proof. intros T TT cycles fuel p. exact (do_run_members_all cycles fuel p). Qed.
+Print Assumptions C06_members_run_snapshots.
 
 (* "first recur in the next cycle" is false of the code for a target that has not
    yet had its pass in the current root cycle (finding D42): doer 1 extends the
